@@ -18,7 +18,7 @@ type call struct {
 	Terminal  int    `json:"terminal"`
 	Cmd       uint16 `json:"cmd"`
 	TimeoutMs int    `json:"timeout_ms"`
-	Behaviour string `json:"behaviour"` // answer | delay | dup | wrong_serial | ignore | hold | late
+	Behaviour string `json:"behaviour"` // answer | delay | dup | wrong_serial | ignore | hold | late; timeout_ms 0 = the connection's default (3 s)
 	DelayMs   int    `json:"delay_ms,omitempty"`
 }
 
@@ -45,6 +45,7 @@ func genC12(t *rapid.T) c12Case {
 	}
 	nc := rapid.IntRange(1, 8).Draw(t, "calls")
 	perTerm := map[int]int{}
+	defaultUsed := false
 	for i := 0; i < nc; i++ {
 		k := call{ID: i + 1, Terminal: rapid.IntRange(0, n-1).Draw(t, "target"), Cmd: rapid.SampledFrom(commandIDs).Draw(t, "cmd")}
 		perTerm[k.Terminal]++
@@ -63,12 +64,21 @@ func genC12(t *rapid.T) c12Case {
 		default:
 			k.TimeoutMs = rapid.SampledFrom([]int{40, 100, 250}).Draw(t, "timeout")
 		}
+		if !defaultUsed && rapid.IntRange(0, 11).Draw(t, "default_timeout") == 0 {
+			// OverTimeDuration 0: the default applies. An answer after 1.1 .. 2.3 s is in time, silence ends in a timeout error not before 3 s
+			defaultUsed = true
+			k.TimeoutMs, k.DelayMs = 0, 0
+			if k.Behaviour = rapid.SampledFrom([]string{"delay", "delay", "ignore"}).Draw(t, "default_behaviour"); k.Behaviour == "delay" {
+				k.DelayMs = rapid.IntRange(1100, 2300).Draw(t, "default_delay")
+			}
+		}
 		c.Calls = append(c.Calls, k)
 	}
 	if nc >= 5 && rapid.IntRange(0, 3).Draw(t, "timeout_burst") == 0 {
 		// a burst: every command goes to terminal 0, is ignored and times out at the same instant
 		for i := range c.Calls {
 			c.Calls[i].Terminal, c.Calls[i].Behaviour, c.Calls[i].TimeoutMs, c.Calls[i].DelayMs = 0, "ignore", 120, 0
+			defaultUsed = false
 		}
 	}
 	return c
@@ -125,10 +135,12 @@ func c12Scenario(c c12Case) Scenario {
 		sc.Actors = append(sc.Actors, Actor{Name: fmt.Sprintf("t%d", i), Kind: "terminal", Steps: steps})
 	}
 	ps := []Step{{Op: "barrier", Barrier: "joined", Parties: parties}}
+	defaultTimeout := false
 	for _, k := range c.Calls {
+		defaultTimeout = defaultTimeout || k.TimeoutMs == 0
 		ps = append(ps, Step{Op: "send", Key: c.Terminals[k.Terminal].key(), Cmd: k.Cmd, Body: k.body(), TimeoutMs: k.TimeoutMs, Async: true, CallID: k.ID})
 	}
-	ps = append(ps, Step{Op: "join_calls", DeadlineMs: 4000}, Step{Op: "barrier", Barrier: "calls_done", Parties: parties})
+	ps = append(ps, Step{Op: "join_calls", DeadlineMs: 4000 + 2500*btoi(defaultTimeout)}, Step{Op: "barrier", Barrier: "calls_done", Parties: parties})
 	sc.Actors = append(sc.Actors, Actor{Name: "platform", Kind: "platform", Steps: ps})
 	return sc
 }
@@ -254,6 +266,10 @@ func checkC12(c c12Case, _ *kit.Collector) kit.Result {
 			}
 		}
 		dur := r.DurUs / 1000
+		if k.TimeoutMs == 0 {
+			k.TimeoutMs = 3000
+			res.Labels = append(res.Labels, "default_timeout_"+k.Behaviour)
+		}
 		switch k.Behaviour {
 		case "answer", "delay", "dup", "hold":
 			if r.Err != "" || !r.Flag {
